@@ -211,6 +211,36 @@ def evalRC (a : AEnv) : RC → Option Bool
   | .decl v ty k => evalRC { a with vars := (v, ty) :: a.vars } k
   | _ => none
 
+/-! ### round 5: `begin` — what `b(conn)` stands for -/
+
+structure BSt where
+  log      : List Ev := []
+  err      : Option Err := none
+  tx       : Bool := false        -- a non-nil transaction is handed back
+  returned : Bool := false
+  stuck    : Bool := false
+  deriving Repr
+
+/-- meaning of the control-flow term of `begin`: ONE `db.Begin()` (inside it the attempts database/sql retries
+on driver.ErrBadConn, as for `b(conn)` in `assign`), `if err != nil { return nil, err }`, else the session around
+the new Tx with a nil error; anything else — a second `db.Begin()`, `BeginTx`, a changed guard — is `stuck`. -/
+def runBegin (f : Faults) : Blk → BSt → BSt
+  | .done, s => s
+  | .assignErr (.call "db.Begin()") k, s =>
+    if s.returned || s.stuck then s
+    else if s.log ≠ [] then { s with stuck := true }       -- Begin is called once
+    else if f.givesUp then
+      runBegin f k { s with log := badPrefix maxBeginAttempts [], err := some (Err.of .badConn) }
+    else runBegin f k { s with log := badPrefix f.badConn [.begin f.begin],
+                               err := if f.begin then none else some (Err.of .begin) }
+  | .ifc "" "err != nil" thn els k, s =>
+    if s.returned || s.stuck then s
+    else if s.err.isSome then runBegin f k (runBegin f thn s) else runBegin f k (runBegin f els s)
+  | .other "return nil, err" _, s => if s.returned || s.stuck then s else { s with returned := true, tx := false }
+  | .other "return txSession{ Tx: tx, }, nil" _, s =>
+    if s.returned || s.stuck then s else { s with returned := true, tx := true, err := none }
+  | _, s => { s with stuck := true }
+
 /-! ### round 5: what travels down the path (typed forwarding terms `Fwd`) -/
 
 /-- the values the hops of the path hand on: the caller's context `c` (wrapping it in a span keeps its Done /
@@ -221,6 +251,7 @@ inductive V
   | bgCtx
   | body (f : Nat) (ctxless : Bool)
   | conn | beginFn | acceptFn | db | thunk | tx
+  | val (n : Nat)                     -- any other argument (query text, destination, arguments), by identity
   | unknown
   deriving DecidableEq, Repr
 
@@ -236,6 +267,7 @@ def evalArg (actuals : List V) : Arg → V
   | .bg => .bgCtx
   | .recvField "db.beginTx" => .beginFn
   | .recvField "db.acceptable" => .acceptFn
+  | .recvField "t.Tx" => .tx               -- the session's own transaction
   | .recvField _ => .unknown
   | .recv => .db
   | .local "conn" => .conn
